@@ -10,6 +10,8 @@ fn main() {
     vh::util::install_panic_hook();
     match argv[1].as_str() {
         "hash-record" => vh::fam_hash::record(&args),
+        "hll-record" => vh::fam_hll::record(&args),
+        "hllu-record" => vh::fam_hll::record_union(&args),
         c => {
             eprintln!("unknown command {c}");
             std::process::exit(2);
